@@ -11,8 +11,8 @@ from pipes import vector
 
 LEVEL = "exploration"
 MEM_KINDS = ("trap", "crash", "canary", "hang")
-QUICK = ("stringview", "clib", "intconv", "bitset")
-THOROUGH = QUICK + ("set", "algo", "string", "sum")
+QUICK = ("stringview", "string", "clib", "intconv", "bitset")
+THOROUGH = QUICK + ("set", "algo", "sum")
 
 
 def _mine(d):
